@@ -38,6 +38,30 @@ def _conjuncts(t):
     return out
 
 
+_quant_cache = {}
+
+
+def _has_quant(t):
+    i = t.get_id()
+    r = _quant_cache.get(i)
+    if r is None:
+        r = False
+        stack = [t]
+        seen = set()
+        while stack:
+            x = stack.pop()
+            if x.get_id() in seen:
+                continue
+            seen.add(x.get_id())
+            if z3.is_quantifier(x):
+                r = True
+                break
+            stack.extend(x.children())
+        _quant_cache[i] = (r, t)
+        return r
+    return r[0]
+
+
 class HObj:
     __slots__ = ('cls', 'fields')
 
@@ -92,6 +116,14 @@ class Obligation:
         self.kind = kind
         self.note = note
         self.expect_fail = False     # canaries
+
+
+class AbsSet:
+    """A set of values known only through its membership predicate (and whether it is empty)."""
+
+    def __init__(self, mem, empty):
+        self.mem = mem          # python callable: element term -> Bool
+        self.empty = empty      # Bool term
 
 
 class DictVal:
@@ -291,6 +323,13 @@ class Engine:
                     if imp[2] in m2.classes:
                         self.classes[name] = (m2, m2.classes[imp[2]])
                         return self.classes[name]
+                    for dotted in reversed(getattr(m2, 'star_imports', [])):
+                        rp3 = source.module_relpath(dotted)
+                        if rp3:
+                            m3 = source.load(rp3)
+                            if imp[2] in m3.classes:
+                                self.classes[name] = (m3, m3.classes[imp[2]])
+                                return self.classes[name]
                 rp = source.module_relpath(imp[1] + '.' + imp[2]) if imp[1] else None
                 if rp:
                     m2 = source.load(rp)       # `from package import module`: a class named like the module
@@ -480,6 +519,14 @@ class Engine:
             if rp2 is not None:
                 return ModuleVal(imp[1] + '.' + imp[2])
             return ModuleVal(imp[1] + '.' + imp[2] if imp[1] else imp[2])
+        # names that arrive through `from m import *` (the last star import that defines the name wins; compiled
+        # extension modules have no Python source and are skipped: assumption register 7)
+        for dotted in reversed(getattr(mod, 'star_imports', [])):
+            rp = source.module_relpath(dotted)
+            if rp is not None and rp != mod.relpath:
+                v = self.module_name(source.load(rp), name)
+                if v is not NotImplemented:
+                    return v
         return NotImplemented
 
     _const_cache = {}
@@ -589,9 +636,9 @@ class Engine:
                         continue
                     s_stop = s2.copy().assume(b_not(t) if is_and else t)
                     s_go = s2.assume(t if is_and else b_not(t))
-                    if not s_stop.dead:
+                    if not s_stop.dead and self.feasible(s_stop):
                         results.append((s_stop, (False if is_and else True) if is_boollike(v) else v))
-                    if not s_go.dead:
+                    if not s_go.dead and self.feasible(s_go):
                         nxt.append((s_go, v))
             pending = nxt
         return results
@@ -645,6 +692,13 @@ class Engine:
             r = self.contains(b, a)
             return r if isinstance(op, ast.In) else b_not(r)
         o = CMPS[type(op)]
+        if isinstance(a, TypeVal) or isinstance(b, TypeVal):
+            na = a.name if isinstance(a, (TypeVal, Fn)) else getattr(a, 'name', None)
+            nb = b.name if isinstance(b, (TypeVal, Fn)) else getattr(b, 'name', None)
+            if na is None or nb is None:
+                raise Unsupported('type comparison')
+            r = na == nb
+            return r if o == '==' else (not r)
         if o == '==':
             return v_eq(a, b)
         if o == '!=':
@@ -666,6 +720,8 @@ class Engine:
         return num_cmp(o, a, b)
 
     def contains(self, container, x):
+        if isinstance(container, AbsSet):
+            return container.mem(x)
         if isinstance(container, AbsMap):
             return self.absmap_funcs(container)(to_int(x))
         if isinstance(container, Tup):
@@ -851,6 +907,8 @@ class Engine:
                 if ent[2] is None:
                     return self.module_const(ent[0], ent[1])
                 return UserFn(ent[0], ent[1], ent[2])
+        if isinstance(v, Fn) and (v.name + '.' + attr) in self.builtins:
+            return self.builtins[v.name + '.' + attr]
         if isinstance(v, Opt):
             # attribute of an optional: None has no attributes
             st2 = self.fork_exc(st, b_not(v.isnone), 'AttributeError', node)
@@ -1356,10 +1414,16 @@ class Engine:
             env[a.vararg.arg] = Tup([])
         for n, v in zip(names, args):
             env[n] = v
+        extra_kw = {}
         for k, v in kw.items():
             if k in env:
                 raise Unsupported('duplicate argument %s' % k)
+            if k not in names and k not in [x.arg for x in a.kwonlyargs] and a.kwarg is not None:
+                extra_kw[k] = v
+                continue
             env[k] = v
+        if a.kwarg is not None:
+            env[a.kwarg.arg] = DictVal(extra_kw)
         defaults = a.defaults
         for n, d in zip(names[len(names) - len(defaults):], defaults):
             if n not in env:
@@ -1476,6 +1540,9 @@ class Engine:
                         v = s2.out
                     vals.append((b_and(*s2.pc[base:]) if len(s2.pc) > base else True, v))
                 if not vals:
+                    if not self.feasible(st):
+                        st.dead = True       # the calling path itself is infeasible
+                        return []
                     raise Unsupported('pure call of %s has no normal path' % fn.qual)
                 r = vals[-1][1]
                 for cnd, v in reversed(vals[:-1]):
@@ -1826,11 +1893,25 @@ class Engine:
             else:
                 s1 = s.copy().assume(t)
                 s2 = s.assume(b_not(t))
-                if not s1.dead:
+                if not s1.dead and self.feasible(s1):
                     out += self.exec_block(stmt.body, s1)
-                if not s2.dead:
+                if not s2.dead and self.feasible(s2):
                     out += self.exec_block(stmt.orelse, s2)
         return out
+
+    def feasible(self, st):
+        """Cheap pruning of infeasible branches: the quantifier-free part of the path condition is unsatisfiable.
+        (Dropping hypotheses can only make more paths look feasible, so pruning on `unsat` is sound.)"""
+        if self.dry:
+            return True
+        qf = [a for a in st.pc if not _has_quant(a)]
+        if len(qf) < 2:
+            return True
+        sol = z3.Solver()
+        sol.set('timeout', 300)
+        for a in qf:
+            sol.add(a)
+        return sol.check() != z3.unsat
 
     def st_Assert(self, stmt, st):
         out = []
@@ -2265,7 +2346,7 @@ class Engine:
                     raise ContractError('parameter %s of %s has no kind in the contract' % (p, c.func))
             for p, k in list(c.params.items()) + list(c.ghost.items()):
                 if not isinstance(k, Kind):
-                    st.env[p] = k      # a concrete value given by the contract (scope restriction)
+                    st.env[p] = DictVal(dict(k)) if isinstance(k, dict) else k      # a concrete value given by the contract (scope restriction)
                     continue
                 v = fresh(k, p, (), facts)
                 if isinstance(k, KRec):
